@@ -127,6 +127,7 @@ def as_list(v): return [v[0], list(v[1]), v[2], v[3], v[4], v[5]]
 
 class Prop:
     pid = 'C12'
+    ops_field = 'ops'
     props_file = 'Props/C12.v'
     required_theorems = []     # filled below
     correspondence_name = ('Model/Rpki.v run_case (validate, insert, remove, drop_source, reset, iter, as_path_origin) vs '
